@@ -150,11 +150,43 @@ class MaskFlow(MustAnalysis):
                 self.sinks += 1
                 if s == "raw":
                     self._report(stmt, stmt.value, state, f"stored as training data self.{t.attr}")
+            elif isinstance(t, ast.Attribute) and isinstance(t.value, ast.Name) and t.value.id == "self":
+                # statistics kept on self (label counts, fallback mean/std):
+                # every read of a per-sample array inside has to be masked
+                raw = self.unmasked_reads(stmt.value, state.tokens)
+                if raw:
+                    self.sinks += 1
+                    self._report(stmt, raw[0], state, f"statistic self.{t.attr} computed from all rows")
+                elif self.masked_reads(stmt.value, state.tokens):
+                    self.sinks += 1
             if isinstance(t, ast.Subscript) and isinstance(t.slice, ast.Constant) and t.slice.value == "sample_weight":
                 s = self.expr_state(stmt.value, state.tokens)
                 self.sinks += 1
                 if s == "raw":
                     self._report(stmt, stmt.value, state, "sample_weight handed to the estimator's fit")
+
+    def unmasked_reads(self, e, tokens):
+        """Name nodes of raw (unmasked) per-sample arrays that are read in `e`
+        other than as the base of a mask subscript or inside len()/shape."""
+        parents = {}
+        for n in ast.walk(e):
+            for ch in ast.iter_child_nodes(n):
+                parents[ch] = n
+        out = []
+        for n in ast.walk(e):
+            if isinstance(n, ast.Name) and f"d:{n.id}" in tokens and f"m:{n.id}" not in tokens:
+                par = parents.get(n)
+                if isinstance(par, ast.Subscript) and par.value is n and self.expr_state(par, tokens) == "masked":
+                    continue
+                if isinstance(par, ast.Call) and c01.callname(par) == "len":
+                    continue
+                if isinstance(par, ast.Attribute) and par.attr in ("shape", "ndim", "dtype"):
+                    continue
+                out.append(n)
+        return out
+
+    def masked_reads(self, e, tokens):
+        return any(isinstance(n, ast.Subscript) and self.expr_state(n, tokens) == "masked" for n in ast.walk(e))
 
     def _report(self, node, arg, state, what):
         key = (norm_stmt(node, 80), ast.unparse(arg))
@@ -223,6 +255,11 @@ def run(p, report, tier):
                 why = f"labels are also read at line(s) {sorted({n.lineno for n in other})}"
         report.add("R12.2", f"{cname}.fit", "label statistics only via compute_vote_vectors(y, w, missing_label=-1)",
                    f"{f.file}:{f.node.lineno}", ok, detail=why)
+    report.rule("R12.3", "compute_vote_vectors gives zero weight to missing labels by an assignment (not by arithmetic "
+                "that can turn inf into NaN) that dominates the count (shared with C17 R17.2)", floor=3)
+    from . import c17
+    sub = c01.Report_proxy(report, {"R17.2": "R12.3"})
+    c17.check_vote_weights(p, sub)
     report.assumptions += ["equality of predictions of the two fits as numbers is not decided",
                            "the wrapped estimator's fit is trusted to depend only on the arrays it is given"]
 
